@@ -13,6 +13,14 @@
 //!       boundary; evaluates the tiling predicate on brush's real spans.
 //!       Response: `n=<lines> calls=<calls> bad=<count> digest=<fnv of all spans> <esc line>\t<cursor>\t<spans> …`
 //!       (failing cases, at most 4000 listed).
+//!   `S <esc line> <esc name> <op> <op> …`   (context sweep: the SAME line while the shell's state changes)
+//!       A fresh shell (clone of the pristine start-up shell) per request; ops change its state through the real builtins
+//!       (`alias+ alias- func+ func- extglob+ extglob- posix+ posix- path+ path0 path= cd+ cd-`), `H` highlights
+//!       the line now (tree + every byte offset 0..=len as cursor, also inside multi-byte chars).
+//!       Response: the `L`-style answers of the `H` steps joined by ` %# `.
+//!   `X <esc script>`   prefix closure: every prefix of the script (cut at char boundaries), cursors 0, len/2
+//!       (raw byte), len; the predicate on brush's spans.  Response: `n=<prefixes> calls=… bad=… <preflen>\t<cursor>\t<spans> …`
+//!   `T <esc line>`   timing of one call (cursor = len): `us=<micros> ok=<0|1> nspans=<n>`
 //! A watchdog thread ends the process (exit code 3, `HANG <esc line> <cursor|tree> <idx>` on stderr)
 //! when one call into brush takes longer than `C19_WATCHDOG_MS` (default 20 s).
 use brush_interactive::highlighting::highlight_command;
@@ -30,6 +38,7 @@ fn now_ms() -> u64 {
 
 struct Cx<'a> {
     shell: &'a vh::Sh,
+    /// memo of `class` — valid only while the shell's state does not change (cleared per `H` step)
     classes: HashMap<String, char>,
 }
 
@@ -300,6 +309,122 @@ async fn main() {
                 }
             }
             let _ = writeln!(so, "n={n} calls={calls} bad={bad} digest={digest:016x}{listed}");
+            let _ = so.flush();
+        } else if f.len() >= 3 && f[0] == "S" {
+            let line = unesc(f[1]);
+            let name = unesc(f[2]);
+            let tmp = std::env::temp_dir().join(format!("vh-c19-{}", std::process::id()));
+            let _ = std::fs::create_dir_all(tmp.join("bin"));
+            let _ = std::fs::create_dir_all(tmp.join("work/sub"));
+            for fl in ["work/x", "work/sub/x", "work/é"] {
+                let _ = std::fs::write(tmp.join(fl), "");
+            }
+            let mut sh = shell.clone(); // a fresh copy of the start-up shell (building one costs ~25 ms)
+            let orig_path = std::env::var("PATH").unwrap_or_default();
+            let mut steps: Vec<String> = vec![];
+            for op in &f[3..] {
+                let script = match *op {
+                    "H" => None,
+                    "alias+" => Some(format!("alias {name}='echo hi'")),
+                    "alias-" => Some(format!("unalias {name}")),
+                    "func+" => Some(format!("{name}() {{ :; }}")),
+                    "func-" => Some(format!("unset -f {name}")),
+                    "extglob+" => Some("shopt -s extglob".to_string()),
+                    "extglob-" => Some("shopt -u extglob".to_string()),
+                    "posix+" => Some("set -o posix".to_string()),
+                    "posix-" => Some("set +o posix".to_string()),
+                    "path+" => {
+                        let exe = tmp.join("bin").join(&name);
+                        if !name.contains('/') && std::fs::write(&exe, "#!/bin/sh\n").is_ok() {
+                            use std::os::unix::fs::PermissionsExt;
+                            let _ = std::fs::set_permissions(&exe, std::fs::Permissions::from_mode(0o755));
+                        }
+                        Some(format!("PATH={}:{}", vh::sq(tmp.join("bin").to_str().unwrap_or("")), vh::sq(&orig_path)))
+                    }
+                    "path0" => Some("PATH=".to_string()),
+                    "path=" => Some(format!("PATH={}", vh::sq(&orig_path))),
+                    "cd+" => Some(format!("cd {}", vh::sq(tmp.join("work").to_str().unwrap_or("")))),
+                    "cd-" => Some("cd /".to_string()),
+                    _ => Some(":".to_string()),
+                };
+                match script {
+                    Some(sc) => {
+                        let _ = vh::run(&mut sh, &format!("{sc} 2>/dev/null")).await;
+                    }
+                    None => {
+                        let mut cx2 = Cx { shell: &sh, classes: HashMap::new() };
+                        let mut out = String::new();
+                        if let Ok(mut c) = CURRENT.lock() {
+                            c.clear();
+                            let _ = write!(c, "{} tree 0", esc(&line));
+                        }
+                        CASE_STARTED_MS.store(now_ms(), Ordering::SeqCst);
+                        let tr = std::panic::catch_unwind(std::panic::AssertUnwindSafe(|| {
+                            let mut s = String::new();
+                            cx2.program(&line, &mut s);
+                            s
+                        }));
+                        CASE_STARTED_MS.store(0, Ordering::SeqCst);
+                        match tr {
+                            Ok(s) => out.push_str(s.trim_end()),
+                            Err(e) => {
+                                let _ = write!(out, "TREE{}", panic_msg(e));
+                            }
+                        }
+                        let n = line.len();
+                        let cs: Vec<usize> = if n <= 40 {
+                            (0..=n).collect()
+                        } else {
+                            let mut v: Vec<usize> = (0..24).map(|i| i * n / 24).collect();
+                            v.push(n);
+                            v.dedup();
+                            v
+                        };
+                        for c in cs {
+                            let r = real_spans(&sh, &line, c, 0);
+                            let _ = write!(out, " %| {c} {}", show_spans(&r));
+                        }
+                        steps.push(out);
+                    }
+                }
+            }
+            let _ = std::fs::remove_file(tmp.join("bin").join(&name));
+            let _ = writeln!(so, "{}", steps.join(" %# "));
+            let _ = so.flush();
+        } else if f.len() == 2 && f[0] == "X" {
+            let script = unesc(f[1]);
+            let (mut n, mut calls, mut bad) = (0u64, 0u64, 0u64);
+            let mut listed = String::new();
+            for cut in cursors(&script) {
+                let Some(prefix) = script.get(..cut) else { continue };
+                n += 1;
+                let mut cs = vec![0usize, cut / 2, cut];
+                cs.dedup();
+                for c in cs {
+                    calls += 1;
+                    let r = real_spans(&shell, prefix, c, cut as u64);
+                    if !tiles(prefix, &r) {
+                        bad += 1;
+                        if bad <= 300 {
+                            let _ = write!(listed, " {cut}\t{c}\t{}", show_spans(&r));
+                        }
+                    }
+                }
+            }
+            let _ = writeln!(so, "n={n} calls={calls} bad={bad}{listed}");
+            let _ = so.flush();
+        } else if f.len() == 2 && f[0] == "T" {
+            let line = unesc(f[1]);
+            let t0 = std::time::Instant::now();
+            let r = real_spans(&shell, &line, line.len(), 0);
+            let us = t0.elapsed().as_micros();
+            let nsp = r.as_ref().map(|v| v.len()).unwrap_or(0);
+            let okk = if tiles(&line, &r) { 1 } else { 0 };
+            let extra = match &r {
+                Err(m) => format!(" {m}"),
+                Ok(_) => String::new(),
+            };
+            let _ = writeln!(so, "us={us} ok={okk} nspans={nsp}{extra}");
             let _ = so.flush();
         } else {
             let _ = writeln!(so, "bad-request");
